@@ -188,6 +188,8 @@ func countFaults(e *core.Env, sc *Scenario) {
 
 func cycleRun(which cyc.Which, g Gen) core.RunFunc {
 	return func(tp *core.Tape, e *core.Env) {
+		g := g
+		g.Thorough = e.Thorough()
 		sc := Generate(tp, g)
 		out := Run(tp, e, sc, nil)
 		e.AddSim(out.Elapsed + 10*time.Second)
@@ -313,7 +315,7 @@ func otherClass(sc *Scenario, ri int) string {
 }
 
 func c19Run(tp *core.Tape, e *core.Env) {
-	sc := Generate(tp, Gen{Replicas: 2, ReqFaults: true, ReplicaErrs: true, MaxShards: 4, MultiCycle: true})
+	sc := Generate(tp, Gen{Replicas: 2, ReqFaults: true, ReplicaErrs: true, MaxShards: 4, MultiCycle: true, Thorough: e.Thorough()})
 	both := Run(tp, e, sc, []int{0, 1})
 	e.AddSim(both.Elapsed + 10*time.Second)
 	if both.Trace.Panic != "" || both.Trace.Deadlock {
